@@ -772,7 +772,7 @@ class SigmaCorrelationRule(SigmaRuleBase, ProcessingItemTrackingMixin):
             rule = rule_ref.rule
             rule.add_backreference(self)
             if not self.generate:
-                rule.disable_output()
+                rule.disable_output_by_reference()
 
         # The rules named in field aliases are references as well.
         self.aliases.resolve_rule_references(rule_collection)
